@@ -23,7 +23,7 @@ RULE = (
     'callback. Per signature: at most one call in flight; consecutive '
     'requests at least the interval apart on the clock the scheduler reads; '
     'no request after a success while a pooled task still depended on it; '
-    'every dependent task becomes satisfied and the run finishes. Distinct = '
+    'every dependent task becomes satisfied and the run finishes. A share of the cases reloads the unchanged definition once in mid-run. Distinct = '
     'distinct (program, result sequences, schedule digest); non-trivial = '
     'some signature was called at least twice and one signature was shared '
     'by two pooled tasks.')
@@ -246,7 +246,9 @@ def run(params):
                 return 0
             h.sim.rates['loop_stall'] = 0.15
             h.stall_gap = gap
-    res = run_case(case, monitors=[LaunchMonitor(), InvariantMonitor(), xw],
+    from .common import reload_monitors
+    res = run_case(case, monitors=[LaunchMonitor(), InvariantMonitor(), xw] +
+                   reload_monitors(seed, 'c33', 4),
                    setup=setup)
     if res.error:
         return {'error': res.error, 'violations': [], 'stats': {}}
